@@ -730,7 +730,8 @@ PROPS = {
              "and ping 127.0.0.1 with their own identifiers (6, thorough 20, requests each, records split across writes, 4 data sizes): "
              "each must get exactly one 22-byte 7.4 record per request (source 127.0.0.1, type 0, code 0, its id and sequence number) "
              "and none of the other client's"
-             " One request in six of the live histories has TTL 0 (the kernel refuses to send it): the client is told, and a reply or error that would match it - at once, or after the timeout - is nobody's. The on-the-wire block also requires the kernel's reply to each request to reach the client (type 0 / 129 from the pinged address, identifier and sequence number of the request)",
+             " One request in six of the live histories has TTL 0 (the kernel refuses to send it): the client is told, and a reply or error that would match it - at once, or after the timeout - is nobody's. The on-the-wire block also requires the kernel's reply to each request to reach the client (type 0 / 129 from the pinged address, identifier and sequence number of the request)"
+             " Malformed ICMP packets from the network: after each of 19 the listener still runs and a ping is answered (see C09)",
         explanation="theorems checksum_verifies (all payloads <= 65535 bytes), request_decode_segmentation, request_fields_faithful, request_leaves_as_requested, "
                     "*_no_panic, v4_error_designates, reply_format, waiter-table invariants",
         trusted=["ICMPv6 checksum is computed by the kernel for raw ICMPv6 sockets (not modelled)",
@@ -874,8 +875,9 @@ PROPS = {
              "registry model does"
              " Certificate files that cannot be loaded as what they claim to be - a CERTIFICATE block that is not base64 (alone with a good key, after a good certificate, before one), a key and no certificate, an empty file - in every host class, built and through a hosts file at start-up: all refused"
              " ... and a file with a certificate and no key named as certificate and key file (a \"combined\" file without its key)"
-             " A settings file that leaves every optional key out is written back as TOML and compared key by key (45 keys in 6 sections) with a built configuration",
-        explanation="theorems decode_encode_basic, literal_verbatim, basic_plain_verbatim, load_ok_iff, empty_rejected, base64_injective, "
+             " A settings file that leaves every optional key out is written back as TOML and compared key by key (45 keys in 6 sections) with a built configuration"
+             " Every integer and boolean key of the settings sections (top level, http1, http2, quic, icmp, metrics: 30 keys by name, 5 by alias) is set in a file under each spelling the deserialiser accepts (table regenerated from settings.rs by the translator); the settings read from the file are written back and compared with the defaults - exactly the setting the key names must have moved, to the value given - and the moved fields are compared with the table the theorems keys_unambiguous and keys_name_their_fields are about",
+        explanation="keys_unambiguous, keys_name_their_fields over the regenerated TT/Gen/SettingsKeys.lean; theorems decode_encode_basic, literal_verbatim, basic_plain_verbatim, load_ok_iff, empty_rejected, base64_injective, "
                     "accepted_iff_listed, accepted_token_identifies_pair, refuses_to_start_iff about TT/Model/Creds.lean",
         trusted=["toml_edit for everything outside single-line basic/literal strings (multi-line strings are outside the model)",
                  "the wizard and the client export use toml_edit's own string encoder: their round trips are exercised, not proved",
@@ -982,7 +984,8 @@ PROPS = {
              "transport and closes last: the client must get the complete payload and the end of stream, the session must end gracefully"
              " Plus 4 CONNECT sessions whose relay side is dropped without an orderly end while the client stays connected and silent: "
              "the session must end and the client must see its connection closed"
-             " Relaying phase against TT/Model/H1Relay.lean: 200 (thorough 1500) sessions in which the client sends 1-5 payload segments and the peer writes and reads in a random script, ending with the peer's orderly end (3 in 5), the relay side dropped without one, or the client's end of stream: what the upload side was handed, what the client was sent and how the relaying listen() ended (graceful / failed / still running) are compared with the model's run over the same events",
+             " Relaying phase against TT/Model/H1Relay.lean: 200 (thorough 1500) sessions in which the client sends 1-5 payload segments and the peer writes and reads in a random script, ending with the peer's orderly end (3 in 5), the relay side dropped without one, or the client's end of stream: what the upload side was handed, what the client was sent and how the relaying listen() ended (graceful / failed / still running) are compared with the model's run over the same events"
+             " Four of the valid heads end their lines with a bare LF (all lines, the last one only, the first one only, no header at all); the driver's concrete parser ends the head at its first empty line, CR LF or LF",
         explanation="theorems head_segmentation_invariant, payload_exact, incomplete_head_waits, no_spin, head_bounded, oversize_rejected, "
                     "response_wellformed about TT/Model/H1.lean under the hypothesis PrefixConsistent(parser)"
                     "; relaying_goes_on, relayed_until_close, session_ends_with_either_side, abort_is_not_graceful, "
@@ -996,7 +999,7 @@ PROPS = {
         retry_on_failure=True,
         suites=["c09", "c09live", "c09origin"],
         # the codec suites of the other properties, for their panics and hangs only (wrong answers are those properties' business)
-        borrowed_suites={k: ["panic", "spin_or_hang", "hang", "no_progress", "loop_stalled"] for k in ["c06", "c08", "c11", "c12", "c15"]},
+        borrowed_suites={k: ["panic", "spin_or_hang", "hang", "no_progress", "loop_stalled", "listener_stopped_by_a_packet"] for k in ["c06", "c08", "c11", "c12", "c15"]},
         judge=judge_c09,
         level="proof",
         exhaustive=True,
@@ -1025,7 +1028,8 @@ PROPS = {
              "real into_forwarded source / sink and the real DuplexPipe under virtual time, each run watched by a 20 s wall-clock watchdog "
              "(a stream whose input is re-offered forever keeps the idle timeout from firing): no panic, no busy loop, never more body "
              "bytes delivered than the origin produced; the over-long and bodiless classes are also answered by the C17 model"
-             " Whole ICMP request frames delivered in pieces (cut after 1, 10, 22 bytes) with every tail behind them and another frame after that. Every parser case is announced to the progress watchdog (40 s): a busy loop ends the suite with that case named",
+             " Whole ICMP request frames delivered in pieces (cut after 1, 10, 22 bytes) with every tail behind them and another frame after that. Every parser case is announced to the progress watchdog (40 s): a busy loop ends the suite with that case named"
+             " Malformed ICMP packets from the network (suite c11, borrowed): 9 ICMPv4 and 10 ICMPv6 packets that pass the kernel's filter and the endpoint's parser refuses (unassigned codes, messages shorter than their minimum, echo replies cut short) sent to the loopback addresses while the real forwarder listens on raw sockets; after each the listener must still run and a ping must still be answered",
         explanation="theorems udp_stream_no_panic, udp_step_safe, icmp_request_decoder_safe, ip_header_skipping_safe, icmp_packets_safe, "
                     "client_hello_prebuffer_bounded, h1_head_bounded_and_progress, socks_udp_datagram_safe, socks_truncated_reply_is_error, "
                     "rules_malformed_safe, forwarded_sink_never_spins / _consumes / _failure_is_final (every write of the plain-HTTP response "
